@@ -64,10 +64,15 @@ class Prop:
     manifest = dict(
         text=("Machine-checked theorems (Coq 8.16, no axioms) that every kind-aware query of the executable model equals the plain query "
               "on the kind-filtered child/sibling list, for every forest with unique node identities, every node (top level included), "
-              "every kind and any_kind on/off; the model is tied to /repo on every run by a correspondence check (model evaluated by "
+              "every kind and any_kind on/off, and, in positional form, that index / previous / next / first / last / is-first / "
+              "is-last / siblings of a node are its position and neighbours in the sibling list filtered by its kind; the lexical facts "
+              "of typed_tree.py the model relies on (identity search through Node.get_index / `is self`, every `==` compares kinds, "
+              "`len(...) > 0`, `own_idx < pc_len - 1`, scan starts, literal subscripts) are lifted by gen_facts (section NAVT) and proved "
+              "to be what the model computes; the model is tied to /repo on every run by a correspondence check (model evaluated by "
               "vm_compute vs. the implementation on all typed trees <=4 nodes x all kind assignments + random trees, every node, every "
               "query) and an independent Python oracle of the property statement."),
-        note=("Trusted: Coq kernel + vm_compute; hand-written model theories/Forest/Nav.v (tied by the correspondence only); harness "
+        note=("Trusted: Coq kernel + vm_compute; hand-written model theories/Forest/Nav.v (tied by the correspondence and, for the lexical "
+              "facts of sections NAV/NAVT of Generated.v, by proof obligations); harness "
               "generators/observation; node identity = allocation index recorded by a harness-side wrapper of Node.__init__. "
               "Print Assumptions: closed under the global context for all theorems."),
         technique="Coq proof about an executable Gallina model + differential correspondence check (vm_compute) + Python oracle",
